@@ -307,6 +307,27 @@ func equalEntry(c *Ctx, b *Body, eq *ssa.Function) {
 			continue
 		}
 		call, ok := v.(*ssa.Call)
+		// … possibly through a helper of the library that is handed the two texts and every
+		// answer of which is the recursive comparison
+		if ok && call.Call.StaticCallee() != eq {
+			if h := call.Call.StaticCallee(); h != nil && h.Pkg == b.Lib && len(h.Blocks) > 0 && h.Signature.Recv() == nil {
+				allEq, nh := true, 0
+				for _, hr := range returnsOf(h) {
+					nh++
+					hv := hr.Results[0]
+					if k, isK := boolConst(hv); isK && !k {
+						continue
+					}
+					hc, isCall := hv.(*ssa.Call)
+					if !isCall || hc.Call.StaticCallee() != eq {
+						allEq = false
+					}
+				}
+				if allEq && nh > 0 {
+					continue
+				}
+			}
+		}
 		if !ok || call.Call.StaticCallee() != eq {
 			bad = "the return at " + b.posOf(r) + " answers with " + describeValue(v) + " instead of the recursive comparison: texts for which this path is taken are compared by another rule (their spelling, say), so equal values can differ and the relation is no longer one equality"
 			continue
@@ -900,7 +921,6 @@ func (a *eqAn) indexCoversAll(ia *ssa.IndexAddr) (bool, string) {
 	}
 	return false, "the loop bound is not the length of " + want + ": trailing elements are never compared"
 }
-
 
 // byteComparison: v compares two byte slices for equality — bytes.Equal(x, y), or
 // string(x) == string(y) — and returns the two slices.
